@@ -144,6 +144,15 @@ def finaliseLoop {α : Type} (nl : Nat → Int) : List α → Nat → FinAcc α 
 def resolveNames (table : List (String × List String)) (names : List String) : List String :=
   names.flatMap fun c => (table.filter fun e => e.2.contains c).map (·.1)
 
+/-- the same two loops nested the other way round (`for criterion, aliases in table.items(): for c in names`):
+the result comes out in alias-TABLE order, not in the user's order -/
+def resolveNamesTableMajor (table : List (String × List String)) (names : List String) : List String :=
+  table.flatMap fun e => (names.filter fun c => e.2.contains c).map (fun _ => e.1)
+
+/-- the canonical criterion a name stands for: the key of the first alias list containing it -/
+def canonOf (table : List (String × List String)) (c : String) : Option String :=
+  (table.find? fun e => e.2.contains c).map (·.1)
+
 def allAliases (table : List (String × List String)) : List String := table.flatMap (·.2)
 
 inductive CfgErr | unknownCriterion | lengthMismatch | badCheck
